@@ -398,6 +398,69 @@ def eqhash_VariabilityHierarchy(la: int, na: int, a1n: str, a1r: bool, a1g: str,
     return eq_obligation(mk_vh(la_[:na]), mk_vh(lb_[:nb]))
 
 
+# ---------------------------------------------------------------------------------------------------------
+# frozenmapping.replace: value, hash (also when the original's hash is already cached), original untouched
+
+def _fm_replace_law(n, k1, v1, v2, hashed, rk, rv, hashfn):
+    from C06_build import KEYS
+    a = mk_opts(n, k1, v1, 1 - k1, v2)
+    before = dict(a._mapping)
+    h0 = hashfn(a) if hashed else None
+    r = a.replace(KEYS[rk], rv)
+    want = dict(before)
+    want[KEYS[rk]] = rv
+    fresh = frozenmapping(want)
+    if not (r == fresh and fresh == r and dict(r) == want):
+        return False
+    if dict(a._mapping) != before or (hashed and hashfn(a) != h0):
+        return False
+    if hashfn(r) != hashfn(fresh):
+        return False
+    # a second replace on the result (its hash now cached) and on the original
+    r2 = r.replace(KEYS[k1], v2)
+    want2 = dict(want)
+    want2[KEYS[k1]] = v2
+    return r2 == frozenmapping(want2) and hashfn(r2) == hashfn(frozenmapping(want2))
+
+
+def eqhash_frozenmapping_replace(n: int, k1: int, v1: int, v2: int, hashed: bool, rk: int, rv: int) -> bool:
+    """
+    pre: 0 <= n <= 2 and 0 <= k1 <= 1 and 0 <= rk <= 2
+    post: _ == True
+    """
+    if _fm_replace_law(n, k1, v1, v2, hashed, rk, rv, shash):
+        return True
+    # re-decide with the builtin hash on concrete values, replaying the same call sequence (caches are part of it)
+    from C06_build import uninstall_structural_hash
+    try:
+        from crosshair.core import deep_realize
+        from crosshair.tracers import NoTracing, is_tracing
+        tracing = is_tracing()
+    except ImportError:
+        tracing = False
+    if tracing:
+        args = deep_realize((n, k1, v1, v2, hashed, rk, rv))
+        with NoTracing():
+            uninstall_structural_hash()
+            try:
+                return _fm_replace_law(*args, hash)
+            finally:
+                install_structural_hash()
+    uninstall_structural_hash()
+    try:
+        return _fm_replace_law(n, k1, v1, v2, hashed, rk, rv, hash)
+    finally:
+        install_structural_hash()
+
+
+def eqhash_frozenmapping_replace__twin(v1: int, rv: int) -> bool:
+    """
+    post: _ == True
+    """
+    r = mk_opts(1, 0, v1, 0, 0).replace('b', rv)
+    return not (len(r) == 2 and r['b'] == rv)
+
+
 def _opt(flag, v):
     return None if (NONES and flag) else v
 
